@@ -101,6 +101,9 @@ func ReadBasicTypeList[T constraints.Unsigned, K BasicType](buf *bytes.Buffer) (
 		return nil, err
 	}
 	count := int(t)
+	if count < 0 {
+		return nil, io.ErrUnexpectedEOF
+	}
 
 	result := make([]K, 0, boundedCap(count, buf))
 	var err error
@@ -120,6 +123,9 @@ func ReadBasicTypeListLE[T constraints.Unsigned, K BasicType](buf *bytes.Buffer)
 		return nil, err
 	}
 	count := int(t)
+	if count < 0 {
+		return nil, io.ErrUnexpectedEOF
+	}
 
 	result := make([]K, 0, boundedCap(count, buf))
 	var err error
@@ -304,6 +310,9 @@ func ReadFixedStringListTrimPadding[T constraints.Unsigned](buf *bytes.Buffer, f
 		return nil, err
 	}
 	count := int(t)
+	if count < 0 {
+		return nil, io.ErrUnexpectedEOF
+	}
 
 	result := make([]string, 0, boundedCap(count, buf))
 	var err error
@@ -327,6 +336,9 @@ func ReadFixedStringListTrimPaddingLE[T constraints.Unsigned](buf *bytes.Buffer,
 		return nil, err
 	}
 	count := int(t)
+	if count < 0 {
+		return nil, io.ErrUnexpectedEOF
+	}
 
 	result := make([]string, 0, boundedCap(count, buf))
 	var err error
@@ -396,6 +408,9 @@ func ReadStringListLE[T constraints.Unsigned, K constraints.Unsigned](buf *bytes
 		return nil, err
 	}
 	count := int(t)
+	if count < 0 {
+		return nil, io.ErrUnexpectedEOF
+	}
 
 	result := make([]string, 0, boundedCap(count, buf))
 	for i := 0; i < count; i++ {
@@ -425,6 +440,9 @@ func ReadStringList[T constraints.Unsigned, K constraints.Unsigned](buf *bytes.B
 		return nil, err
 	}
 	count := int(t)
+	if count < 0 {
+		return nil, io.ErrUnexpectedEOF
+	}
 
 	result := make([]string, 0, boundedCap(count, buf))
 	for i := 0; i < count; i++ {
@@ -473,6 +491,9 @@ func ReadObjectList[T constraints.Unsigned, K BinaryCodec](buf *bytes.Buffer, ne
 		return nil, err
 	}
 	count := int(t)
+	if count < 0 {
+		return nil, io.ErrUnexpectedEOF
+	}
 
 	result := make([]K, 0, boundedCap(count, buf))
 	for i := 0; i < count; i++ {
@@ -510,6 +531,9 @@ func ReadObjectListLE[T constraints.Unsigned, K BinaryCodec](buf *bytes.Buffer, 
 		return nil, err
 	}
 	count := int(t)
+	if count < 0 {
+		return nil, io.ErrUnexpectedEOF
+	}
 
 	result := make([]K, 0, boundedCap(count, buf))
 	for i := 0; i < count; i++ {
